@@ -165,7 +165,9 @@ def gen_pomdp(rng, abs_kind=None, smax=4, amax=3, omax=3, smin=1, amin=1, omin=1
                         Rw[s][a][s] = F(rng.choice([-4, -3, -2, -1, 1, 2, 3, 4]))
                     continue
                 allowed = live_set if (unreach and s in live_set) else list(range(nS))
-                if dense:      # every transition row spreads over several states: the next state differs from the current one
+                if dense == "sparse":   # nearly deterministic dynamics: 1-2 successors
+                    T[s][a] = _row_on(rng, nS, allowed, kmax=2)
+                elif dense:    # every transition row spreads over several states: the next state differs from the current one
                     T[s][a] = _row(rng, nS, support=rng.sample(list(allowed), min(3, len(allowed))))
                 else:
                     T[s][a] = _tiny_row(rng, nS, allowed) if (extremes and rng.random() < .4) else _row_on(rng, nS, allowed)
@@ -188,8 +190,13 @@ def gen_pomdp(rng, abs_kind=None, smax=4, amax=3, omax=3, smin=1, amin=1, omin=1
                 for o, p in zip(others, rest):
                     row[o] = p
                 return row
+            def sparse(t):      # deterministic / sparse observations: some observation has probability exactly 0
+                return [F(int(o == t % nO)) for o in range(nO)] if rng.random() < .6 else _row(rng, nO, kmax=max(1, nO - 1))
             for _ in range(20):
-                Ob = [[(peaked(t) if rng.random() < .7 else _row(rng, nO, support=list(range(nO)))) for t in range(nS)] for _ in range(nA)]
+                if dense == "sparse":
+                    Ob = [[sparse(t) for t in range(nS)] for _ in range(nA)]
+                else:
+                    Ob = [[(peaked(t) if rng.random() < .7 else _row(rng, nO, support=list(range(nO)))) for t in range(nS)] for _ in range(nA)]
                 if all(len({tuple(Ob[a][t]) for t in range(nS)}) >= min(nS, 2) for a in range(nA)) or nO == 1:
                     break
         if extremes:
@@ -402,9 +409,13 @@ def gen_cases(rng, tier):
     # observation rows, 8 iterations, and EVERY stopping point k = 0..8 of the same run (iterations=k is a prefix of
     # iterations=k+1): results returned right after an escape-node step, after a node improvement, after convergence;
     # node values compared across consecutive stopping points and across every recorded evaluation
-    n_sweep = 10 if tier == "quick" else 40
+    n_sweep = 12 if tier == "quick" else 40
     for i in range(n_sweep):
-        pc = gen_pomdp(rng, abs_kind="none", smin=3, smax=3, amin=2, amax=2, omin=2, omax=2 + (i % 5 == 4), dense=True, labels=(i % 4 == 3))
+        # one third: dense dynamics, full-support observation rows peaked on the next state; two thirds: nearly
+        # deterministic dynamics with deterministic / sparse observations, so that at the beliefs of escape steps some
+        # (action, observation) pair has probability exactly 0
+        pc = gen_pomdp(rng, abs_kind="none", smin=3, smax=3, amin=2, amax=2, omin=2, omax=2 + (i % 5 == 4),
+                       dense="sparse" if i % 3 else True, labels=(i % 4 == 3))
         cases.append({"kind": "bpi", "pomdp": pc, "nodes": 3 + i % 2 if i % 5 else 2, "seed": i % 3 if tier == "quick" else rng.randint(0, 9),
                       "iterations": 8, "improve_fn": "matrix", "prefix": True, "runs": 1, "run_seed": rng.randrange(10 ** 6), "max_steps": 5})
     n_ga = 6 if tier == "quick" else 60
